@@ -13,8 +13,11 @@ if VERIF not in sys.path:
 from hsim import core, evidence  # noqa: E402
 
 
+_OUT = os.fdopen(os.dup(1), "w")  # survives batch.quiet_stdio() in this process
+
+
 def say(*a):
-    print(*a, flush=True)
+    print(*a, file=_OUT, flush=True)
 
 
 class Report:
